@@ -34,7 +34,7 @@ def fill_state(d, u, beta, it):
     half = n // 2
     for part in (u[:half], u[half:]):
         st.set_current("u", part)
-        st.set_current("x", part.copy())
+        st.set_current("x", 10.0 * part + 3.0)      # physical coordinates differ from the unit-cube ones
         st.set_current("logl", -np.sum((part - 0.5) ** 2, axis=1))
         st.set_current("beta", beta)
         st.set_current("logz", 0.0)
